@@ -155,7 +155,7 @@ func genC17uri(tier string, rng *Rng) {
 
 func pickDomains(clean bool) []string {
 	if clean {
-		return []string{"", "example.com", "a.b:8080", "d e"}
+		return []string{"", "example.com", "a.b:8080", "d e", ".example.com", "Example.COM", ".A.b"} // leading dot / upper case: after seed C17-m6
 	}
 	return []string{"", "example.com", "a;b", " d "}
 }
